@@ -448,6 +448,212 @@ def gen_append(o, repo):
     o.add("append_start", thunk)
 
 
+# ---------------------------------------------------------------------------------------------------
+# The hand-over of a record to a header that was not made from it: LasWriter.write_points, LasAppender.append_points,
+# LasData.__init__ and the LasData.points setter compare the two point formats (PointFormat.__eq__, which compares the extra
+# dimensions with DimensionInfo.__eq__) and refuse the record when they differ; what passes is stored as the record's own bytes.
+#   Definition dim_info : Type            the fields of the NamedTuple DimensionInfo, in its order
+#   Definition dim_info_eq (a b : dim_info) : bool                                  DimensionInfo.__eq__
+#   Definition point_format_eq (self_id other_id : Z) (self_extra other_extra : list dim_info) : bool      PointFormat.__eq__
+#   Definition handover_guards : list string                                        the entry points found guarded by it
+# Fail closed: any other shape of these functions is Untranslatable.
+# ---------------------------------------------------------------------------------------------------
+_FIELD_TYPES = {"str": ("string", "String.eqb {a} {b}"), "int": ("Z", "({a} =? {b})"), "bool": ("bool", "Bool.eqb {a} {b}"),
+                "DimensionKind": ("Z", "({a} =? {b})"), "Optional[np.ndarray]": ("option (list Z)", None)}
+
+_PF_PRELUDE = """(* numpy: np.all(a == b) for two Optional arrays of binary64 numbers (bit patterns): None == None is True; None against an
+   array compares elementwise to False (np.all of nothing is True); two arrays of one length compare as numbers: NaN differs
+   from everything, -0.0 equals 0.0 *)
+Definition f64_is_nan (x : Z) : bool := 9218868437227405312 <? x mod 9223372036854775808.
+Definition f64_num_eq (a b : Z) : bool :=
+  negb (f64_is_nan a) && negb (f64_is_nan b) && ((a =? b) || ((a mod 9223372036854775808 =? 0) && (b mod 9223372036854775808 =? 0))).
+Fixpoint f64_list_eq (a b : list Z) : bool :=
+  match a, b with
+  | [], [] => true
+  | x :: a', y :: b' => f64_num_eq x y && f64_list_eq a' b'
+  | _, _ => false
+  end.
+Definition np_all_eq (a b : option (list Z)) : bool :=
+  match a, b with
+  | None, None => true
+  | Some x, Some y => f64_list_eq x y
+  | None, Some y | Some y, None => match y with [] => true | _ => false end
+  end.
+"""
+
+
+def gen_handover(o, repo):
+    fields = []
+
+    def dim_info_eq():
+        mod = py2v.parse(repo, "laspy/point/dims.py")
+        cls = py2v.find_class(mod, "DimensionInfo")
+        if [ast.unparse(b) for b in cls.bases] != ["NamedTuple"]:
+            raise Untranslatable("DimensionInfo is not a NamedTuple")
+        for n in cls.body:
+            if isinstance(n, ast.AnnAssign) and isinstance(n.target, ast.Name):
+                t = ast.unparse(n.annotation)
+                if t not in _FIELD_TYPES:
+                    raise Untranslatable(f"DimensionInfo.{n.target.id}: type {t}")
+                fields.append((n.target.id, t))
+            elif isinstance(n, ast.Assign):
+                raise Untranslatable("DimensionInfo has a class attribute that is not a field")
+        if not fields:
+            raise Untranslatable("DimensionInfo has no fields")
+        eq = py2v.find_func(cls, "__eq__")
+        if [a.arg for a in eq.args.args] != ["self", "other"]:
+            raise Untranslatable("DimensionInfo.__eq__ signature")
+        body = [s for s in eq.body if not (isinstance(s, ast.Expr) and isinstance(s.value, ast.Constant))]
+        if len(body) != 1 or not isinstance(body[0], ast.Return) or body[0].value is None:
+            raise Untranslatable("DimensionInfo.__eq__ is not one return statement")
+        e = body[0].value
+        conj = e.values if isinstance(e, ast.BoolOp) and isinstance(e.op, ast.And) else [e]
+        names = dict(fields)
+        parts = []
+        for cj in conj:
+            wrapped = False
+            if isinstance(cj, ast.Call) and ast.unparse(cj.func) in ("np.all", "numpy.all") and len(cj.args) == 1 and not cj.keywords:
+                cj, wrapped = cj.args[0], True
+            if not (isinstance(cj, ast.Compare) and len(cj.ops) == 1 and isinstance(cj.ops[0], ast.Eq)):
+                raise Untranslatable(f"DimensionInfo.__eq__: conjunct {ast.unparse(cj)[:60]}")
+            l, r = cj.left, cj.comparators[0]
+            ok = (isinstance(l, ast.Attribute) and isinstance(r, ast.Attribute) and l.attr == r.attr and l.attr in names
+                  and {ast.unparse(l.value), ast.unparse(r.value)} == {"self", "other"})
+            if not ok:
+                raise Untranslatable(f"DimensionInfo.__eq__: conjunct {ast.unparse(cj)[:60]}")
+            ty, cmp = _FIELD_TYPES[names[l.attr]]
+            if (cmp is None) != wrapped:
+                raise Untranslatable(f"DimensionInfo.__eq__: {l.attr} compared {'through np.all' if wrapped else 'without np.all'}")
+            a, b = f"a_{l.attr}", f"b_{l.attr}"
+            parts.append(f"np_all_eq {a} {b}" if wrapped else cmp.format(a=a, b=b))
+        for n in cls.body:
+            if isinstance(n, ast.FunctionDef) and n.name == "__ne__":
+                nb = [s for s in n.body if not (isinstance(s, ast.Expr) and isinstance(s.value, ast.Constant))]
+                if len(nb) != 1 or ast.unparse(nb[0]) != "return not self == other":
+                    raise Untranslatable("DimensionInfo.__ne__ is not `not self == other`")
+        ty = " * ".join(_FIELD_TYPES[t][0] for _, t in fields)
+        pat = lambda p: "(" + ", ".join(f"{p}_{n}" for n, _ in fields) + ")"
+        return (_PF_PRELUDE + "\n(* laspy/point/dims.py DimensionInfo: " + ", ".join(n for n, _ in fields) + " (kind: the value of the enum DimensionKind; offsets, scales: binary64 patterns) *)\n"
+                f"Definition dim_info : Type := ({ty})%type.\n"
+                "Definition dim_info_eq (a b : dim_info) : bool :=\n"
+                f"  let '{pat('a')} := a in\n  let '{pat('b')} := b in\n  " + " && ".join(parts) + ".\n")
+    o.add("dim_info_eq", dim_info_eq)
+
+    def kinds():
+        import importlib
+        dims = importlib.import_module("laspy.point.dims")
+        if not os.path.realpath(dims.__file__).startswith(os.path.realpath(repo)):
+            raise Untranslatable(f"laspy imported from {dims.__file__}, not from {repo}")
+        rows = []
+        for k in dims.DimensionKind:
+            if not isinstance(k.value, int) or isinstance(k.value, bool):
+                raise Untranslatable(f"DimensionKind.{k.name} = {k.value!r}")
+            if k.letter() is not None:
+                rows.append(f"({int(k.value)}, {qs(k.letter())})")
+        return "Definition dimension_kind_letters : list (Z * string) := [" + "; ".join(rows) + "].\n"
+    o.add("dimension_kind_letters", kinds)
+
+    def pf_eq():
+        if not fields:
+            raise Untranslatable("DimensionInfo could not be read")
+        mod = py2v.parse(repo, "laspy/point/format.py")
+        cls = py2v.find_class(mod, "PointFormat")
+        ed = py2v.find_func(cls, "extra_dimensions", decorator="property")
+        eb = [s for s in ed.body if not (isinstance(s, ast.Expr) and isinstance(s.value, ast.Constant))]
+        if len(eb) != 1 or ast.unparse(eb[0]) not in ("return (dim for dim in self.dimensions if dim.is_standard is False)",
+                                                     "return [dim for dim in self.dimensions if dim.is_standard is False]",
+                                                     "return (dim for dim in self.dimensions if not dim.is_standard)"):
+            raise Untranslatable("PointFormat.extra_dimensions is not the non-standard dimensions in their order")
+        eq = py2v.find_func(cls, "__eq__")
+        if [a.arg for a in eq.args.args] != ["self", "other"]:
+            raise Untranslatable("PointFormat.__eq__ signature")
+        if any(isinstance(n, ast.FunctionDef) and n.name == "__ne__" for n in cls.body):
+            raise Untranslatable("PointFormat defines __ne__")
+        body = [s for s in eq.body if not (isinstance(s, ast.Expr) and isinstance(s.value, ast.Constant))]
+        if len(body) != 3:
+            raise Untranslatable("PointFormat.__eq__: not `if ids differ / for over the extra dimensions / return True`")
+        first, loop, last = body
+        if not (isinstance(first, ast.If) and not first.orelse and ast.unparse(first.test) in ("self.id != other.id", "other.id != self.id")
+                and len(first.body) == 1 and ast.unparse(first.body[0]) == "return False"):
+            raise Untranslatable(f"PointFormat.__eq__: {ast.unparse(first)[:60]}")
+        if ast.unparse(last) != "return True":
+            raise Untranslatable(f"PointFormat.__eq__ ends with {ast.unparse(last)[:40]}")
+        if not (isinstance(loop, ast.For) and not loop.orelse and isinstance(loop.target, ast.Tuple) and len(loop.target.elts) == 2
+                and all(isinstance(x, ast.Name) for x in loop.target.elts)
+                and ast.unparse(loop.iter) in ("zip_longest(self.extra_dimensions, other.extra_dimensions)",
+                                               "itertools.zip_longest(self.extra_dimensions, other.extra_dimensions)")):
+            raise Untranslatable(f"PointFormat.__eq__: loop {ast.unparse(loop)[:80]}")
+        x, y = (e.id for e in loop.target.elts)
+        none_checked, compared = False, False
+        for s in loop.body:
+            if not (isinstance(s, ast.If) and not s.orelse and len(s.body) == 1 and ast.unparse(s.body[0]) == "return False"):
+                raise Untranslatable(f"PointFormat.__eq__: loop body {ast.unparse(s)[:60]}")
+            t = ast.unparse(s.test)
+            if t in (f"{x} is None or {y} is None", f"{y} is None or {x} is None"):
+                if compared:
+                    raise Untranslatable("PointFormat.__eq__: the padding of zip_longest is tested after the comparison")
+                none_checked = True
+            elif t in (f"{x} != {y}", f"{y} != {x}", f"not {x} == {y}", f"not {y} == {x}"):
+                if not none_checked:
+                    raise Untranslatable("PointFormat.__eq__: dimensions compared before the padding of zip_longest is excluded")
+                compared = True
+            else:
+                raise Untranslatable(f"PointFormat.__eq__: condition {t[:60]}")
+        if not (none_checked and compared):
+            raise Untranslatable("PointFormat.__eq__: the loop does not compare the dimensions pairwise")
+        return ("(* laspy/point/format.py PointFormat.__eq__: same id, and the extra dimensions pairwise equal, position by position\n"
+                "   (zip_longest pads the shorter list with None: lists of different lengths are different) *)\n"
+                "Fixpoint extra_dimensions_eq (mine others : list dim_info) : bool :=\n"
+                "  match mine, others with\n  | [], [] => true\n"
+                f"  | {x} :: mine', {y} :: others' => if negb (dim_info_eq {x} {y}) then false else extra_dimensions_eq mine' others'\n"
+                "  | _, _ => false\n  end.\n"
+                "Definition point_format_eq (self_id other_id : Z) (self_extra other_extra : list dim_info) : bool :=\n"
+                "  if negb (self_id =? other_id) then false else extra_dimensions_eq self_extra other_extra.\n")
+    o.add("point_format_eq", pf_eq)
+
+    def guards():
+        sites = [("laspy/laswriter.py", "LasWriter", "write_points", None, ("points.point_format != self.header.point_format",),
+                  "self.point_writer.write_points("),
+                 ("laspy/lasappender.py", "LasAppender", "append_points", None, ("points.point_format != self.header.point_format",),
+                  "self.points_appender.append_points("),
+                 ("laspy/lasdata.py", "LasData", "__init__", None, ("points.point_format != header.point_format",), "_points"),
+                 ("laspy/lasdata.py", "LasData", "points", "points.setter", ("new_points.point_format != self.point_format",
+                                                                             "new_points.point_format != self.header.point_format"), "self._points =")]
+        def flat(cls, fn, depth=2):
+            """the statements of fn in order, those of the helper methods of the same class it calls spliced in before the call"""
+            methods = {n.name: n for n in cls.body if isinstance(n, ast.FunctionDef)}
+            out = []
+            for s in fn.body:
+                if depth:
+                    for n in ast.walk(s):
+                        if isinstance(n, ast.Call) and isinstance(n.func, ast.Attribute) and isinstance(n.func.value, ast.Name) \
+                                and n.func.value.id in ("self", cls.name) and methods.get(n.func.attr) not in (None, fn):
+                            out += flat(cls, methods[n.func.attr], depth - 1)
+                out.append(s)
+            return out
+        found = []
+        for rel, cname, fname, dec, tests, use in sites:
+            cls = py2v.find_class(py2v.parse(repo, rel), cname)
+            fn = py2v.find_func(cls, fname, decorator=dec)
+            guard_at = use_at = None
+            for i, s in enumerate(flat(cls, fn)):
+                # the refusal condition is the format test itself, or a disjunction that contains it (refusing MORE, e.g. also a
+                # record whose item size is not the format's, keeps "refused unless PointFormat.__eq__ holds")
+                disj = [ast.unparse(v) for v in s.test.values] if isinstance(s, ast.If) and isinstance(s.test, ast.BoolOp) \
+                    and isinstance(s.test.op, ast.Or) else ([ast.unparse(s.test)] if isinstance(s, ast.If) else [])
+                if guard_at is None and isinstance(s, ast.If) and any(d in tests for d in disj) and not s.orelse \
+                        and len(s.body) == 1 and isinstance(s.body[0], ast.Raise):
+                    guard_at = i
+                if use_at is None and use in ast.unparse(s) and not (isinstance(s, ast.Expr) and isinstance(s.value, ast.Constant)):
+                    use_at = i
+            if guard_at is None or use_at is None or not guard_at < use_at:
+                raise Untranslatable(f"{cname}.{fname}: the record is not refused on differing point formats before it is taken")
+            found.append(f"{cname}.{fname}")
+        return ("(* the entry points that pair a record with a header refuse it unless PointFormat.__eq__ holds, before anything is stored *)\n"
+                "Definition handover_guards : list string := [" + "; ".join(qs(f) for f in found) + "].\n")
+    o.add("handover_guards", guards)
+
+
 _gen0 = gen
 
 
@@ -455,6 +661,7 @@ def gen(repo):  # noqa: F811
     o = _gen0(repo)
     gen_resolve(o, repo)
     gen_append(o, repo)
+    gen_handover(o, repo)
     return o
 
 
